@@ -134,11 +134,14 @@ class HedValidator:
             list: Validation issues. Each issue is a dictionary.
         """
         validation_issues = []
-        for match in self.pattern_doubleslash.finditer(original_tag.org_tag):
+        # The slashes of the tag proper: a namespace prefix is not part of it (sc:/Red starts with a slash as /Red does)
+        namespace = original_tag.schema_namespace
+        offset = len(namespace) if namespace and original_tag.org_tag.startswith(namespace) else 0
+        for match in self.pattern_doubleslash.finditer(original_tag.org_tag[offset:]):
             validation_issues += error_reporter.ErrorHandler.format_error(ValidationErrors.NODE_NAME_EMPTY,
                                                                           tag=original_tag,
-                                                                          index_in_tag=match.start(),
-                                                                          index_in_tag_end=match.end())
+                                                                          index_in_tag=match.start() + offset,
+                                                                          index_in_tag_end=match.end() + offset)
 
         return validation_issues
 
